@@ -145,6 +145,31 @@ func reportFindings(r *vh.Report, o Observed, S string, mode Mode, runner Runner
 	}
 }
 
+// countComments records, for one accepted decorated source, how many comments were
+// inserted, how many of those the tokenizer's capture reports for S (the list the
+// oracle compares), and how many it does not (a comment the capture cannot see would
+// escape the comment clause, so this is monitored, not assumed).
+func countComments(r *vh.Report, S string, inserted []Inserted) {
+	have := map[string]int{}
+
+	src := tokComments(S)
+	for _, c := range src {
+		have[c]++
+	}
+
+	r.Count("comments.in_sources", int64(len(src)))
+	r.Count("comments.inserted", int64(len(inserted)))
+
+	for _, in := range inserted {
+		if have[in.Text] > 0 {
+			have[in.Text]--
+			r.Count("comments.inserted_seen_by_tokenizer", 1)
+		} else {
+			r.Count("comments.inserted_not_seen_by_tokenizer", 1)
+		}
+	}
+}
+
 func neededText(n []string) string {
 	if len(n) == 0 {
 		return ""
@@ -311,8 +336,7 @@ func TestC05Generated(t *testing.T) {
 		}
 
 		r.Count("sources.accepted", 1)
-		r.Count("comments.inserted", int64(len(inserted)))
-		r.Count("comments.in_sources", int64(len(tokComments(S))))
+		countComments(r, S, inserted)
 
 		if o.F != "" {
 			r.Count("events.format_ok", 1)
@@ -460,7 +484,7 @@ func TestC05Generated(t *testing.T) {
 		rg := vh.Rand(fmt.Sprintf("c05-langgen-%d", gi))
 		m := vh.N(150, 6000)
 
-		for i := 0; i < m; i++ {
+		for i, attempts := 0, 0; i < m && attempts < 6*m; attempts++ {
 			src, feats, ok := g(rg)
 			if !ok {
 				continue
@@ -472,6 +496,8 @@ func TestC05Generated(t *testing.T) {
 				continue
 			}
 
+			i++
+
 			cand := avoid.filterSlots(slots(src))
 
 			offs := map[int]bool{}
@@ -479,8 +505,23 @@ func TestC05Generated(t *testing.T) {
 				offs[s.Off] = true
 			}
 
+			// These programs are large: at this density some comment nearly always lands
+			// where the compiler does not take one. Back off (halve the set) until the
+			// compiler accepts the decorated program; the bare program is the last resort.
 			pick := pickSlots(rg, cand, int((0.05+rg.Float64()*0.4)*float64(len(offs))))
 			S, inserted := decorate(src, cand, pick, "zc")
+
+			for len(pick) > 0 {
+				if e, _ := compileProgram(S); e == "" {
+					break
+				}
+
+				r.Count("langgen.decoration_backoffs", 1)
+
+				pick = pick[:len(pick)/2]
+				S, inserted = decorate(src, cand, pick, "zc")
+			}
+
 			o := observe(S, Auto, RunProgram, env)
 			r.Eval(vh.Hash(S), o.Accepted)
 
@@ -491,7 +532,7 @@ func TestC05Generated(t *testing.T) {
 
 			r.Count("sources.accepted", 1)
 			r.Count("langgen.programs", 1)
-			r.Count("comments.inserted", int64(len(inserted)))
+			countComments(r, S, inserted)
 
 			if len(o.Findings) > 0 {
 				reportFindings(r, o, S, Auto, RunProgram, env, src, cand, pick, inserted,
